@@ -267,8 +267,8 @@ func c13ErrvalCases(rng *rand.Rand, tier string) []c13Case {
 			if p.op == "query" && c13KindWrites(k) {
 				continue // a query has no transaction of its own: writes of its hooks are not part of any rollback
 			}
-			// quick: slices only see a third of the kinds per point (rotating), single records all of them
-			if tier == "quick" && p.shape != "single" && (ki+pi)%3 != 0 {
+			// quick: slices only see half of the kinds per point (rotating), single records all of them
+			if tier == "quick" && p.shape != "single" && (ki+pi)%2 != 0 {
 				continue
 			}
 			cs = append(cs, c13Case{Op: p.op, Shape: p.shape, N: p.n, FailAt: p.at, FailErr: k})
